@@ -20,4 +20,14 @@ for c in man["checks"]:
         if d not in targets: targets.append(d)
 ok, out = core.lake_build(targets)
 print(out[-3000:])
-sys.exit(0 if ok else 1)
+if not ok:
+    # One broken target must not take the other checks down with it: build the targets one by one, report what
+    # fails (the check of that property reports the broken tie itself, with the proof log), and go on.
+    failed = []
+    for t in targets:
+        ok1, out1 = core.lake_build([t])
+        if not ok1:
+            failed.append(t)
+            print(f"setup: target {t} does not build:\n{out1[-1500:]}")
+    print("setup: built all targets except: " + (", ".join(failed) or "none"))
+sys.exit(0)
